@@ -49,13 +49,20 @@ def all_generators():
 
 
 def setup():
+    """Regenerate EosGen and build what the claimed checks need (targets of the properties in MANIFEST.json)."""
     t0 = time.time()
-    broken = regenerate(all_generators(), print)
+    man = json.load(open(C.VERIF / 'MANIFEST.json'))
+    gens, targets = [], []
+    for chk in man['checks']:
+        mod = load_prop(chk['property_id'])
+        gens += [g for g in getattr(mod, 'GENERATORS', []) if g not in gens]
+        targets += [t for t in list(mod.LEAN_TARGETS) + list(getattr(mod, 'DRIVERS', [])) if t not in targets]
+    broken = regenerate(gens, print)
     for name, err in broken:
         print('generator %s failed:\n%s' % (name, err))
-    ok, out = C.lake_build([])
+    ok, out = C.lake_build(targets)
     print(out[-4000:])
-    print('setup: lake build %s in %.0fs' % ('ok' if ok else 'FAILED', time.time() - t0))
+    print('setup: lake build of %d targets %s in %.0fs' % (len(targets), 'ok' if ok else 'FAILED', time.time() - t0))
     return 0 if ok and not broken else 2
 
 
